@@ -439,10 +439,12 @@ class Lower:
         if fld.get('kind') == 'VarDecl':        # static data member via object
             return self.global_ref(fld)
         if not fld:
-            key = 'field:%s::%s' % (self.objtype(b), n['name'].lstrip('->.'))
+            key = 'field:%s::%s' % (re.sub(r'\((unnamed|anonymous) (union|struct) at [^)]*\)', r'(anonymous \2)', self.objtype(b)), n['name'].lstrip('->.'))
             if key in self.stubs:
-                return self.stubs[key].replace('$', base)
+                return self.stubs[key].replace('$', '(*%s)' % base if n.get('isArrow') and '$.' in self.stubs[key] else base)
             raise Abort('member %s of non-dumped class (key %r) in %s' % (n['name'], key, self.cur_fn))
+        if not fld.get('name'):                  # the anonymous union object itself: its members are reached directly
+            return base if not n.get('isArrow') else '(*%s)' % base
         x = '(%s)%s%s' % (base, acc, n['name'])
         if self.is_ref(self.qt(fld)):
             x = '(*%s)' % x
@@ -1063,7 +1065,7 @@ class Lower:
                 return x
             raise Abort('constructor stub missing: %r (in %s, line %s)' % (key, self.cur_fn, Ast.where(n)[1]))
         if isinstance(st, dict):
-            return self.stub_expand(st, None, [self.E(a) for a in ins], n)
+            return self.stub_expand(st, None, [self.E(a) for a in ins if a.get('kind') != 'CXXDefaultArgExpr'], n)
         ptypes = self.param_types_from_sig(ctort)
         argl = []
         for i, a in enumerate(ins):
@@ -1626,6 +1628,18 @@ class Lower:
             s += '    %s vs_base_%s;\n' % (self.ctype(bt), self.mangle(bname))
             n += 1
         for f in self.inner(rec):
+            if f.get('kind') == 'FieldDecl' and not f.get('name'):
+                # anonymous union member: a C11 anonymous union with the same members (accessed directly, as in C++)
+                ur = [c for c in self.inner(rec) if c.get('kind') == 'CXXRecordDecl' and c.get('tagUsed') == 'union' and not c.get('name')]
+                if len(ur) != 1:
+                    raise Abort('anonymous member of %s: expected exactly one anonymous union' % q)
+                s += '    union {\n'
+                for uf in self.inner(ur[0]):
+                    if uf.get('kind') == 'FieldDecl':
+                        s += '        %s %s;\n' % (self.ctype(uf['type']), uf['name'])
+                s += '    };\n'
+                n += 1
+                continue
             if f.get('kind') == 'FieldDecl':
                 m = re.match(r'^(.*)\[(\d+)\]$', norm_type(self.qt(f)))
                 if m:
